@@ -477,11 +477,18 @@ impl ProcfsHandle {
                     // If the lookup failed due to ENOENT, and the current
                     // procfs handle is "masked" in some way, try to create a
                     // temporary unmasked handle and retry the operation.
-                    Self::new_unmasked()
-                        // Use the old error if creating a new handle failed.
-                        .or(Err(err))?
-                        .open(base, subpath, oflags)
-                        .map(OwnedFd::from)
+                    match Self::new_unmasked() {
+                        // If the "unmasked" handle is just as masked as we
+                        // are (no private procfs instance could be created),
+                        // looking again cannot find anything new -- and
+                        // retrying on it would recurse without bound.
+                        Ok(procfs) if !procfs.is_subset => {
+                            procfs.open(base, subpath, oflags).map(OwnedFd::from)
+                        }
+                        // Use the old error otherwise (including if creating
+                        // a new handle failed).
+                        _ => Err(err),
+                    }
                 } else {
                     Err(err)
                 }
